@@ -33,6 +33,8 @@ MUTATIONS = {
     'C05': [
         ('compression', 'tonic/src/codec/compression.rs', r'b"identity" => Ok\(None\),', 'b"identity" => Ok(Some(CompressionEncoding::Gzip)),', 'identity request treated as gzip'),
         ('decode', 'tonic/src/codec/decode.rs', r'if self\.encoding\.is_some\(\) \{\s*self\.encoding\s*\} else \{', 'if true { self.encoding } else {', 'flag 1 without negotiated encoding accepted'),
+        ('compression', 'tonic/src/codec/compression.rs', r"value\.put_u8\(b','\);", "value.put_u8(b';');", 'accept-encoding list separated by semicolons'),
+        ('compression', 'tonic/src/codec/compression.rs', r'value\.put_slice\(b"identity"\);', 'value.put_slice(b"gzip");', 'identity not advertised'),
     ],
     'C06': [
         ('decode', 'tonic/src/codec/decode.rs', r'if len > limit \{', 'if len >= limit {', 'limit off by one (decoder)'),
